@@ -193,7 +193,8 @@ func runC20(c *Ctx) {
 			ob := c.Obl("R2", key, "text is returned verbatim with scrubbing on only when no net.Error is anywhere in the chain").At(p.InstrPos(r))
 			ob.HoldNT("guarded by !errors.As(err, *net.Error)")
 		default:
-			nScrub++
+			// arms merged into one return (single-exit style, or a helper inlined back) count one by one
+			nScrub += len(errLeaves(r.Results[0]))
 			ob := c.Obl("R2", key, "with scrubbing on and a net.Error found, the returned string is built only from constants, allow-listed address-free fields, %T formatting, errno text and recursive ElideError/ElideAddr results").At(p.InstrPos(r))
 			if asCall != nil && !hasFact(fs, func(f Fact) bool { cc, ok := p.FactCallBool(f, "errors.As"); return ok && f.Pol && cc == asCall }) {
 				ob.Violate("the return is reachable without errors.As having found a net.Error")
